@@ -1,9 +1,14 @@
 #!/bin/sh
 # Run the repository's own suite (guard off) and summarise: passes, and failures other than the
-# module-load test that also fails in the pinned baseline of this image.
+# module-load test that also fails in the pinned baseline of this image.  The suite's socket test binds
+# a fixed TCP port, so it runs in a private network namespace when that is possible.
 R=${1:-/repo}
 make -C "$R" >/dev/null 2>&1 || { echo "BUILD FAILED"; exit 1; }
-out=$(make -C "$R/test" test 2>&1)
+if unshare -n true 2>/dev/null; then
+  out=$(unshare -n sh -c "ip link set lo up; make -C '$R/test' test" 2>&1)
+else
+  out=$(make -C "$R/test" test 2>&1)
+fi
 p=$(echo "$out" | grep -c '\.\.\.passed')
 f=$(echo "$out" | grep '\.\.\.failed' | grep -v 'spif_module_load' )
 echo "passed=$p"
